@@ -238,13 +238,15 @@ theorem C03_gen_paths :
     Pyro.Gen.C03.metaLookup = ["__getattr__", "__setattr__"] ∧
     Pyro.Gen.C03.streamPrecheck = true := by decide
 
-/-- Every reply the daemon builds carries the request's sequence number, and a oneway request is
-    answered with nothing. -/
+/-- Every reply the daemon builds carries the request's sequence number, a oneway request is answered
+    with nothing, and a stream that a fetch re-attaches to a new connection is no longer lingering (linger
+    timestamp 0), so that a `fetch` after a recovery is an ordinary call answered with the stream's next item. -/
 theorem C03_gen_server :
     Pyro.Gen.C03.replySeqArgs = ["handleRequest:request_seq", "_sendExceptionResponse:seq", "_handshake:msg_seq"] ∧
     (∀ x ∈ Pyro.Gen.C03.requestSeqSource, x = "msg.seq") ∧ Pyro.Gen.C03.requestSeqSource ≠ [] ∧
     (∀ x ∈ Pyro.Gen.C03.excReplySeqArgs, x = "request_seq") ∧
-    Pyro.Gen.C03.onewayNoReply = true := by decide
+    Pyro.Gen.C03.onewayNoReply = true ∧
+    Pyro.Gen.C03.streamReattach = ["current_context.client", "timestamp", "0", "stream"] := by decide
 
 /-! ### non-vacuity: concrete histories meeting the hypotheses -/
 
